@@ -77,6 +77,12 @@ def check_lock_typestate(ctx):
                         ok, why = manual_protocol(fi.node, asg, var, par)
                         if not ok:
                             ok, why = manual_protocol_inside_try(fi.node, asg, var, par)
+                        if not ok:
+                            ok2, why2 = manual_protocol_paths(fi.node, asg, var)
+                            if ok2:
+                                ok, why = True, ''
+                            elif 'overwrites' in why2:
+                                why = why2
                 ctx.check('R12.1', ok, fi.module, fi.qualname, c, why + ': a failing edit would leave the tree locked '
                           '("nested modification" errors on every later edit)', c.lineno, sample=norm(c, 60))
     if n < 10:
@@ -115,6 +121,70 @@ def manual_protocol(fn, asg, var, par):
         for x in ast.walk(s):
             if isinstance(x, ast.Return):
                 return False, 'manual protocol: `return` inside the try body skips success()'
+    return True, ''
+
+
+def manual_protocol_paths(fn, asg, var):
+    """The protocol as a typestate over the flow graph, whatever the syntactic shape: from `var = ....enter()` on, (1) every normal path
+    to the function's return passes `var.success()`, (2) every path to the function's exceptional exit passes `var.fail()` (or comes after
+    the success), (3) after `var.fail()` the function does not return normally (the handler re-raises).  `if var:` / `if not var:` are
+    decided: on these paths `var` holds the entered manager."""
+    cfg = CFG(fn)
+    enter_nodes = [n for n in cfg.nodes if any(x is asg for x in subnodes(cfg, n)) or n.ast is asg]
+    if not enter_nodes:
+        return False, 'manual enter() not found in the flow graph'
+
+    def calls(n, meth):
+        return any(isinstance(x, ast.Call) and call_name(x) == meth and isinstance(x.func, ast.Attribute) and norm(x.func.value) == var
+                   for x in subnodes(cfg, n))
+    succ_nodes = {n.id for n in cfg.nodes if calls(n, 'success')}
+    fail_nodes = {n.id for n in cfg.nodes if calls(n, 'fail')}
+    if not succ_nodes or not fail_nodes:
+        return False, 'manual protocol: success() / fail() of the entered manager not found'
+
+    def trivially_safe(e):
+        # evaluating a bare name / constant / `not name` / `a is b` cannot raise
+        while isinstance(e, ast.UnaryOp) and isinstance(e.op, ast.Not):
+            e = e.operand
+        if isinstance(e, (ast.Name, ast.Constant)):
+            return True
+        return isinstance(e, ast.Compare) and all(isinstance(o, (ast.Is, ast.IsNot)) for o in e.ops) and \
+            all(isinstance(x, (ast.Name, ast.Constant)) for x in [e.left] + e.comparators)
+
+    def feasible(n, lab, s):
+        if lab == 'exc':
+            if n.kind == 'test' and trivially_safe(n.ast):
+                return False
+            if n.kind == 'stmt' and isinstance(n.ast, ast.Return) and (n.ast.value is None or trivially_safe(n.ast.value)):
+                return False
+        if n.kind == 'test' and lab in ('true', 'false'):
+            t, neg = n.ast, False
+            while isinstance(t, ast.UnaryOp) and isinstance(t.op, ast.Not):
+                t, neg = t.operand, not neg
+            if isinstance(t, ast.Name) and t.id == var:
+                return lab == ('false' if neg else 'true')
+        return True
+    for e in enter_nodes:
+        starts = [s for lab, s in e.succ if lab != 'exc']
+        reach = set(starts)
+        for st in starts:
+            if st not in succ_nodes | fail_nodes:
+                reach |= cfg.reachable(st, feasible, stop=succ_nodes | fail_nodes)
+        # one release per enter: the holder of an entered manager is not overwritten by a second plain enter()
+        for n2 in cfg.nodes:
+            if n2.id in reach and n2.id != e.id:
+                for x in subnodes(cfg, n2):
+                    if isinstance(x, ast.Assign) and len(x.targets) == 1 and norm(x.targets[0]) == var and isinstance(x.value, ast.Call) and \
+                            call_name(x.value) == 'enter':
+                        return False, (f'manual protocol: `{var} = ....enter()` at line {x.lineno} overwrites a manager that may already be entered '
+                                       f'(two enters, one release: the registry count never returns to zero)')
+        if cfg.exit in reach:
+            return False, 'manual protocol: a normal path from enter() to the return skips success()'
+        if cfg.raise_ in reach:
+            return False, 'manual protocol: an exception after enter() can leave the function without fail()'
+    for f in fail_nodes:
+        if cfg.exit in cfg.reachable(f, lambda n, lab, s: lab != 'exc'):
+            return False, 'manual protocol: after fail() the handler must re-raise'
     return True, ''
 
 
@@ -577,7 +647,9 @@ def check_admission_guards(ctx):
         for fi in ctx.repo.funcs(mod, q):
             if 'code' not in fi.params():
                 raise AnalysisError(f'{q}: parameter `code` vanished')
-            cfg, circ, cons = guards(fi.node, 'code')
+            from ..inline import inlined
+            fnode, _ = inlined(ctx.repo, fi)         # an entry point split into wrapper + worker is read as one function
+            cfg, circ, cons = guards(fnode, 'code')
             # first "installation" of the code: the handler dispatch in the kernel, the direct graft in replace()
             inst = []
             for nd in cfg.nodes:
